@@ -2773,8 +2773,10 @@ fn run_c13(case: &Case, _seed: u64, rep: &mut Rep) {
 // ---------------------------------------------------------------------------
 
 fn row_text(s: &Screen, r: u16, start: u32, width: u32) -> String {
-    let (_, cols) = s.size();
-    let end = (start + width).min(u32::from(cols));
+    // the window is over the cells the row actually has: a scrollback row kept from before a
+    // width change may be wider (or narrower) than the screen; the loop stops at the first
+    // missing cell
+    let end = start + width;
     let mut out = String::new();
     let mut prev_wide = false;
     let mut filled = start; // first column not yet accounted for
@@ -2867,8 +2869,7 @@ fn c14_between(s: &Screen, a: (u16, u16, u16, u16), rep: &mut Rep, at: &str) -> 
 
 fn c14_point(s: &Screen, rng: &mut Rng, rep: &mut Rep, at: &str) {
     if mixed_width(s) {
-        rep.stat("skipped_mixed_width", 1);
-        return;
+        rep.stat("mixed_width_views", 1);
     }
     rep.eval();
     let (rows, cols) = s.size();
@@ -2921,7 +2922,7 @@ fn run_c14(case: &Case, seed: u64, rep: &mut Rep) {
                     c14_point(s, &mut rng, rep, &at);
                     dirty = false;
                 }
-                if rep.case_fails > 0 || mixed_width(s) {
+                if rep.case_fails > 0 {
                     continue;
                 }
                 let (rows, cols) = s.size();
